@@ -629,6 +629,18 @@ func (v *FnV) spCall(st *State, e *SExpr, sc *Scope) Value {
 			st.assume(v.c.sindexFacts(v, a.S, b.S))
 		}
 		return Value{T: tInt, S: sx("sindex", a.S, b.S)}
+	case "strlt":
+		v.c.strLtFns()
+		return Value{T: tBool, S: sx("str_lt", arg(0).S, arg(1).S)}
+	case "tofloat":
+		a := arg(0)
+		if isFloatType(a.T) {
+			return a
+		}
+		if a.T == nil {
+			a.T = tInt
+		}
+		return Value{T: tFloat64, S: v.intToFloat(st, a, tFloat64)}
 	case "atoi_ok":
 		v.c.atoiFns()
 		return Value{T: tBool, S: sx("atoi_ok", arg(0).S)}
